@@ -130,10 +130,10 @@ theorem recvSession_cases (c : Cfg) (s : St) :
 theorem failSession_state (c : Cfg) (s : St) : (failSession c s).1 = true → (failSession c s).2.state = .failed := by
   unfold failSession; split
   · simp
-  · simp only; split <;> simp
+  · intro _; simp [closeT, setState, St.log]
 @[simp] theorem failSession_enc (c : Cfg) (s : St) : (failSession c s).2.enc = s.enc := by
   unfold failSession; split
   · rfl
-  · simp only; split <;> simp
+  · simp [closeT, setState, St.log]
 
 end LimeModel.ServerHs
